@@ -587,3 +587,111 @@ func pieceText(ps []ssa.Value) string {
 	}
 	return out
 }
+
+// A vret is one way of leaving a function: a return statement, or — for a single return statement whose results are
+// merged values (`return applies, principal, err` at the end of a function that assigned them on different paths) —
+// one incoming edge of that merge with the values it carries.
+type vret struct {
+	R       *ssa.Return
+	Res     []ssa.Value
+	Guarded func(EdgePred) bool // every path from the entry to this exit takes an edge accepted by the predicate
+}
+
+func virtualReturns(f *ssa.Function) []vret {
+	var out []vret
+	for _, r := range realReturns(f) {
+		r := r
+		blk := r.Block()
+		res := make([]ssa.Value, len(r.Results))
+		hasPhi := false
+		for i := range r.Results {
+			res[i] = resOf(r, i)
+			if phi, ok := res[i].(*ssa.Phi); ok && phi.Block() == blk {
+				hasPhi = true
+			}
+		}
+		if !hasPhi || len(blk.Preds) < 2 {
+			out = append(out, vret{R: r, Res: res, Guarded: func(p EdgePred) bool { return guardedBy(r, nil, p) }})
+			continue
+		}
+		for pi, pred := range blk.Preds {
+			pi, pred := pi, pred
+			vr := make([]ssa.Value, len(res))
+			for i, v := range res {
+				vr[i] = v
+				if phi, ok := v.(*ssa.Phi); ok && phi.Block() == blk {
+					vr[i] = phi.Edges[pi]
+				}
+			}
+			out = append(out, vret{R: r, Res: vr, Guarded: func(p EdgePred) bool { return edgeGuarded(pred, blk, nil, p) }})
+		}
+	}
+	return out
+}
+
+// allOriginsAt is allOrigins for a value used by instruction `use`, with one refinement for merged values: an incoming
+// edge of a phi is left out when it can only be taken under a condition whose opposite guards the use — the same pure
+// test made twice (`if o.X == nil { v = read() }; …; if o.X == nil { use(v) }`: the "not read" edge never reaches the
+// use). Conditions are compared structurally (sameVal).
+func allOriginsAt(use ssa.Instruction, v ssa.Value, preds ...OPred) (bool, *Origin) {
+	phi, isPhi := v.(*ssa.Phi)
+	if !isPhi || use == nil {
+		return allOrigins(v, preds...)
+	}
+	for i, e := range phi.Edges {
+		if edgeExcludedAt(phi.Block().Preds[i], phi.Block(), use) {
+			continue
+		}
+		if ok, bad := allOriginsAt(use, e, preds...); !ok {
+			return false, bad
+		}
+	}
+	return true, nil
+}
+
+// edgeExcludedAt: the CFG edge pred->blk lies behind a branch (cond, b) — found by walking up single-predecessor blocks —
+// and every path from blk to `use` takes the opposite branch of a structurally identical condition.
+func edgeExcludedAt(pred, blk *ssa.BasicBlock, use ssa.Instruction) bool {
+	type cb struct {
+		c ssa.Value
+		b bool
+	}
+	var conds []cb
+	p := pred
+	// the edge itself may be a branch of pred's own If
+	if iff, ok := lastInstr(p).(*ssa.If); ok && len(p.Succs) == 2 && p.Succs[0] != p.Succs[1] {
+		conds = append(conds, cb{iff.Cond, p.Succs[0] == blk})
+	}
+	for n := 0; n < 6 && len(p.Preds) == 1; n++ {
+		q := p.Preds[0]
+		if iff, ok := lastInstr(q).(*ssa.If); ok && len(q.Succs) == 2 && q.Succs[0] != q.Succs[1] {
+			conds = append(conds, cb{iff.Cond, q.Succs[0] == p})
+		}
+		p = q
+	}
+	if len(blk.Instrs) == 0 {
+		return false
+	}
+	for _, k := range conds {
+		k := k
+		c0, b0 := stripNot(k.c, k.b)
+		opposite := func(cond ssa.Value, branch bool) bool {
+			c1, b1 := stripNot(cond, branch)
+			if sameVal(c0, c1) {
+				return b1 == !b0
+			}
+			// x != y is !(x == y)
+			x0, ok0 := c0.(*ssa.BinOp)
+			x1, ok1 := c1.(*ssa.BinOp)
+			if ok0 && ok1 && ((x0.Op == token.EQL && x1.Op == token.NEQ) || (x0.Op == token.NEQ && x1.Op == token.EQL)) &&
+				((sameVal(x0.X, x1.X) && sameVal(x0.Y, x1.Y)) || (sameVal(x0.X, x1.Y) && sameVal(x0.Y, x1.X))) {
+				return b1 == b0
+			}
+			return false
+		}
+		if guardedBy(use, blk.Instrs[0], opposite) {
+			return true
+		}
+	}
+	return false
+}
